@@ -1316,14 +1316,17 @@ pub fn miri_main(cfg: &Cfg) {
   let mut r = Rng::new(cfg.seed ^ 0x3141);
   let mut results = vec![];
   let fams: Vec<usize> = match cfg.prop.as_str() {
+    "C04" => (2..=8).collect(),
+    "C05" => vec![9],
     "C06" => vec![0],
+    "C11" => vec![20],
     "C12" => vec![1],
     "C15" => vec![10],
     _ => (0..FAMILIES).collect(),
   };
   for i in 0..cfg.n(2, 3) {
     // every other scenario is the merge_all family (queued inners + unsubscribe: the richest lock graph)
-    let fam = if fams.len() > 1 && i % 2 == 1 { 9 } else { fams[(cfg.seed as usize + i * 7) % fams.len()] };
+    let fam = if cfg.prop == "C10" && i % 2 == 1 { 9 } else { fams[(cfg.seed as usize + i * 3) % fams.len()] };
     let mut s = random_scen(&mut r, fam);
     // tiny: two threads with at most two operations each (merge_all: three threads, three operations)
     let (nt, no) = if fam == 9 { (3, 3) } else { (2, 2) };
@@ -1338,6 +1341,11 @@ pub fn miri_main(cfg: &Cfg) {
     let v = universal(&o).or_else(|| match (cfg.prop.as_str(), &s.kind) {
       // the full C10 oracle (common order, merge_all oracle, linearizability, share) also under Miri's scheduler
       ("C10", _) => super::c10::oracle(&o, &s),
+      ("C04", _) => two_input_name(&s).and_then(|name| linearizable(&o, &s, name)),
+      ("C05", _) => flatten_oracle(&o, &s),
+      ("C11", _) => share_oracle(&o),
+      ("C06", _) => must_receive(&o).or_else(|| common_order(&o)),
+      ("C12", _) if !s.threads.iter().flatten().any(|op| matches!(op, TOp::Complete(_) | TOp::Error(_) | TOp::Unsub(_) | TOp::UnsubSubject)) => first_probe_receives_all(&o),
       (_, Kind::Subject) => common_order(&o),
       _ => None,
     });
